@@ -26,6 +26,7 @@ def main():
     err = PermissionError(errno.EACCES, "injected") if spec.get("error", "perm") == "perm" \
         else OSError(errno.ENOSPC, "injected: no space left on device")
     count = [0]
+    SANDBOX = os.path.dirname(os.path.abspath(spec["metafile"]))
 
     def on_event(tracer, rec):
         if rec[0] in ("chmod", "utime"):
@@ -37,6 +38,22 @@ def main():
             raise err
         count[0] += 1
 
+    import shutil
+    shutil._USE_CP_SENDFILE = False      # copies go through file.write(), where faults can strike
+    if spec.get("relative"):
+        # the caller stands in the metafile's directory and names it by its bare file name
+        os.chdir(os.path.dirname(spec["metafile"]))
+        spec["metafile"] = os.path.basename(spec["metafile"])
+    if mode == "short-oswrite":
+        real_write = os.write
+        left = [prefix]
+
+        def short_write(fd, data):
+            # a legal short write: fewer bytes than asked for, no error (quota, signal, pipe)
+            n = min(len(data), max(left[0], 1)) if left[0] >= 0 else len(data)
+            left[0] = -1
+            return real_write(fd, bytes(data)[:n])
+        os.write = short_write
     if mode in ("kill-write", "raise-write"):
         real_open = open
 
@@ -63,7 +80,7 @@ def main():
             fd = real_open(path, flags, *a, **kw)
             writing = isinstance(flags, str) and any(c in flags for c in "wa+x")
             inside = isinstance(path, (str, bytes, os.PathLike)) and \
-                os.path.abspath(os.fspath(path)).startswith(os.getcwd())
+                os.path.abspath(os.fspath(path)).startswith(SANDBOX)
             return Handle(fd) if writing and inside else fd
         import builtins
         builtins.open = fake_open      # every module that writes through open() is covered
